@@ -255,6 +255,7 @@ class Defn:
         self.fu: dict = {}
         self.uid = 0
         self.super_n = 0                # the first super_n names go to an old-style superclass __init__
+        self.kwonly = 0                 # the last `kwonly` names (all with defaults) are keyword-only in the user __init__
         self.derived: set = set()       # unpack hooks that the dataclass form must derive from the annotation itself
         self.nform: dict = {}           # form -> {field index -> form of the nested class}
         self.classes: dict = {}
@@ -276,6 +277,7 @@ class Defn:
 
     def shape(self):
         return (tuple((f.kind, f.fmt, f.sub.shape() if f.sub else None) for f in self.fields), self.user_init, self.super_n,
+                self.kwonly,
                 tuple(sorted(self.defaults)), tuple(sorted(self.fp)), tuple(sorted(self.fu)))
 
 
@@ -353,6 +355,8 @@ def gen_defn(rng, formats, depth=0, max_fields=12) -> Defn:
         nd = min(nd, len(d.names))
         for n in d.names[len(d.names) - nd:]:
             d.defaults[n] = gen_default(rng, d, n)
+        if nd and rng.random() < 0.3:
+            d.kwonly = nd       # `def __init__(self, a, *, b=.., c=..)` / dataclass field(default=.., kw_only=True)
     if d.user_init is None and rng.random() < 0.22:
         lead = 0
         while lead < len(d.fields) and d.fields[lead].kind == "prim":
@@ -364,6 +368,8 @@ def gen_defn(rng, formats, depth=0, max_fields=12) -> Defn:
         for i, f in enumerate(d.fields):
             if f.sub is not None:
                 av = f.sub.forms()
+                if f.sub.kwonly:
+                    av = [x for x in av if x != "I"]    # a plain class with keyword-only parameters cannot be decoded
                 d.nform[form][i] = form if (form in av and rng.random() < 0.5) else rng.choice(av)
     return d
 
@@ -417,7 +423,10 @@ def namespace_for(d: Defn, form: str, with_init=True):
             continue        # convert_to_payload has to derive this one from the tuple[...] / set[...] annotation
         ns["fix_unpack_" + n] = _mk_hook_unpack(HOOKS[k][1])
     if with_init and d.user_init is not None:
-        params = ", ".join(f"{n}=_D[{n!r}]" if n in d.defaults else n for n in d.names)
+        plist = [f"{n}=_D[{n!r}]" if n in d.defaults else n for n in d.names]
+        if d.kwonly:
+            plist.insert(len(plist) - d.kwonly, "*")
+        params = ", ".join(plist)
         fwd = ", ".join(d.names)
         kw = ", **kwargs" if d.user_init == "kw" else ""
         src = f"def __init__(self, {params}{kw}):\n    _VP.__init__(self, {fwd}{kw})\n"
@@ -531,7 +540,8 @@ def build(d: Defn, form: str, fresh=False):
                 n = f.names[0]
                 ann = annotation_for(d, i, f, d.uid + i)
                 if n in d.defaults:
-                    fields.append((n, ann, dataclasses.field(default=d.defaults[n])))
+                    kwo = bool(d.kwonly) and n in d.names[len(d.names) - d.kwonly:]
+                    fields.append((n, ann, dataclasses.field(default=d.defaults[n], kw_only=kwo)))
                 else:
                     fields.append((n, ann))
             cls = dataclasses.make_dataclass(f"N{d.uid}", fields, bases=(DataClassPayload,), namespace=ns)
@@ -598,7 +608,9 @@ def realise(spec, d: Defn, form: str, name: str):
 
 def make_instance(d: Defn, form: str, api_vals: dict):
     cls = build(d, form)
-    return cls(*[realise(api_vals[n], d, form, n) for n in d.names])
+    npos = len(d.names) - d.kwonly      # keyword-only names cannot be given positionally to the plain definition
+    return cls(*[realise(api_vals[n], d, form, n) for n in d.names[:npos]],
+               **{n: realise(api_vals[n], d, form, n) for n in d.names[npos:]})
 
 
 def canon(v):
@@ -652,6 +664,8 @@ def defn_tokens(d: Defn, form: str):
     init = {None: "-", "kw": "kw", "nokw": "nokw"}[d.user_init]
     if d.super_n and form != "D":
         init = f"super:{d.super_n}"
+    if d.kwonly and form != "D":
+        init = ("kwok:" if d.user_init == "kw" else "kwo:") + str(d.kwonly)
     dfl = []
     for j, n in enumerate(d.names):
         if n in d.defaults:
@@ -936,7 +950,7 @@ def dec_default(x):
 def defn_replay(d: Defn):
     return {"fields": [{"kind": f.kind, "fmt": f.fmt, "names": f.names, "ty": f.ty, "ck": f.ck, "ann": f.ann,
                         "sub": defn_replay(f.sub) if f.sub else None} for f in d.fields],
-            "user_init": d.user_init, "super_n": d.super_n, "derived": sorted(d.derived),
+            "user_init": d.user_init, "super_n": d.super_n, "kwonly": d.kwonly, "derived": sorted(d.derived),
             "defaults": {k: enc_default(v) for k, v in d.defaults.items()},
             "fix_pack": d.fp, "fix_unpack": d.fu, "nested_forms": {k: {str(i): v for i, v in m.items()}
                                                                    for k, m in d.nform.items()}}
@@ -990,6 +1004,7 @@ class Run:
         ctx.count(f"def:names={min(len(d.names), 40) // 4 * 4}+")
         ctx.count(f"def:user_init={d.user_init}")
         ctx.count(f"def:old-style-super={min(d.super_n, 3)}")
+        ctx.count(f"def:keyword-only-defaults={min(d.kwonly, 3)}")
         ctx.count(f"def:defaults={min(len(d.defaults), 4)}")
         ctx.count(f"def:hooks={min(len(d.fp) + len(d.fu), 4)}")
         ctx.count(f"def:depth={d.depth}")
@@ -1105,9 +1120,15 @@ class Run:
                     self.ask(line, te.attrs, real, f"constructor of form {form}",
                              {**rep_d, "form": form, "positional": posn, "keywords": kwn})
                     ctx.case(("init", d.shape(), form, kind, len(posn), tuple(kwn)), nontrivial or kind.startswith("mixed"))
-                self.compare_forms("__init__:binding", outcomes, rep_d,
-                                   {"positional": posn, "keywords": kwn, "values": {k: repr(v)[:80] for k, v in api.items()}},
-                                   f"constructor call positional={posn} keywords={kwn}")
+                if d.kwonly and len(posn) > len(d.names) - d.kwonly:
+                    # a keyword-only name given positionally: the plain constructor refuses it, the generated one (ordinary
+                    # parameters) accepts it - by design, not compared (the model is still compared with each form)
+                    ctx.count("call:keyword-only-name-given-positionally")
+                else:
+                    self.compare_forms("__init__:binding", outcomes, rep_d,
+                                       {"positional": posn, "keywords": kwn,
+                                        "values": {k: repr(v)[:80] for k, v in api.items()}},
+                                       f"constructor call positional={posn} keywords={kwn}")
             # --- pack list, bytes, decode ---------------------------------------------------------
             insts = {}
             for form in forms:
@@ -1187,24 +1208,29 @@ class Run:
             extra = {"values": {k: repr(v)[:80] for k, v in api.items()}}
             self.compare_forms("to_pack_list:pack-list", pls, rep_d, extra, "to_pack_list")
             self.compare_forms("pack_serializable:bytes", bts, rep_d, extra, "bytes")
-            self.compare_forms("unpack_serializable:fields", decs, rep_d, extra, "decoded fields / offset")
+            # the interpreted from_unpack_list passes everything positionally: a plain class with keyword-only
+            # parameters cannot be rebuilt by it at all; the compiled form is then the reference for the dataclass form
+            ref_form = "C" if d.kwonly else "I"
+            if d.kwonly:
+                ctx.count(f"decode:keyword-only-plain-class:{decs.get('I', ('?',))[0]}")
+            self.compare_forms("unpack_serializable:fields", decs, rep_d, extra, "decoded fields / offset", ref_form)
             # None entries reach a hook only outside the Serializer: the compiled guard makes the forms differ there
             hook_on_none = raw_mode == "none" and d.fu
             short_with_defaults = raw_mode == "short" and d.defaults
             if not hook_on_none and not short_with_defaults:
                 self.compare_forms("from_unpack_list:fields", fuls, rep_d, {**extra, "raw_mode": raw_mode},
-                                   f"from_unpack_list ({raw_mode})")
+                                   f"from_unpack_list ({raw_mode})", ref_form)
             else:
                 ctx.count("unpack:outside-hypotheses")
         self.flush()
 
-    def compare_forms(self, sig, outcomes, rep_d, extra, what):
+    def compare_forms(self, sig, outcomes, rep_d, extra, what, ref_form="I"):
         """oracle: every compiled/dataclass outcome equals the interpreted one (errors are equal as errors)"""
-        ref = outcomes.get("I")
+        ref = outcomes.get(ref_form)
         if ref is None:
             return
         for form, out in outcomes.items():
-            if form == "I":
+            if form in ("I", ref_form):
                 continue
             if out[0] == "err" and out[1] == "class-creation":
                 continue    # reported once at class creation
@@ -2034,6 +2060,7 @@ def defn_from_replay(rec) -> Defn:
     d.names = [n for f in d.fields for n in f.names]
     d.user_init = rec["user_init"]
     d.super_n = rec.get("super_n", 0)
+    d.kwonly = rec.get("kwonly", 0)
     d.defaults = {k: dec_default(v) for k, v in rec["defaults"].items()}
     d.derived = set(rec.get("derived", []))
     d.fp, d.fu = rec["fix_pack"], rec["fix_unpack"]
